@@ -168,35 +168,68 @@ def smallstep_cmds(run):
     return cmds, exp
 
 
-def smallstep(ctx, runs, tag):
-    """returns (number of runs replayed, list of (run index, command, expected, model's answer))"""
+def run_conc_cmds(ctx, tag, batches):
+    """batches: list of (cmds, exp); returns for each the index of the first mismatch (or None) and the model's answer"""
     ops_p = os.path.join(ctx.rd, tag + ".ss.ops")
-    index = []
     with open(ops_p, "w") as f:
-        line = 0
-        for ri, r in enumerate(runs):
-            ce = smallstep_cmds(r)
-            if ce is None:
-                continue
-            cmds, exp = ce
+        for cmds, _ in batches:
             f.write("\n".join(cmds) + "\n")
-            index.append((ri, line, cmds, exp))
-            line += len(cmds)
     out_p = os.path.join(ctx.rd, tag + ".ss.out")
     with open(ops_p, "rb") as fi, open(out_p, "wb") as fo:
         p = subprocess.run([C.DRIVER], stdin=fi, stdout=fo, stderr=subprocess.PIPE)
         if p.returncode != 0:
             raise C.MachineryError("driver crashed (conc)")
     got = C.read_lines(out_p)
-    bad = []
-    for ri, start, cmds, exp in index:
-        for k, (c, e) in enumerate(zip(cmds, exp)):
+    res, start = [], 0
+    for cmds, exp in batches:
+        bad = None
+        for k, e in enumerate(exp):
             g = got[start + k] if start + k < len(got) else "<eof>"
-            if g != e:
-                bad.append((ri, c, e, g))
+            if e is not None and g != e:
+                bad = (k, g)
                 break
-    return len(index), bad
+        res.append(bad)
+        start += len(cmds)
+    return res
 
+
+POOL = 99   # model thread standing for the worker pool of the real database
+
+
+def with_pool_runs(cmds, exp, positions):
+    """the same replay with the worker pool draining its queue before the commands at `positions`"""
+    c2, e2 = [], []
+    for k, (c, e) in enumerate(zip(cmds, exp)):
+        if k in positions:
+            c2 += ["conc call %d drain" % POOL, "conc until %d ret" % POOL]
+            e2 += [None, None]
+        c2.append(c)
+        e2.append(e)
+    return c2, e2
+
+
+def smallstep(ctx, runs, tag):
+    """returns (number of runs replayed, list of (run index, command, expected, model's answer)).
+    The worker pool of the real database runs its deletion jobs whenever it likes (it is not one of the
+    scheduled actors): a replay that disagrees is tried again with the pool draining its queue before
+    every command, and before each single command; only a run no placement explains is reported."""
+    index = []
+    for ri, r in enumerate(runs):
+        ce = smallstep_cmds(r)
+        if ce is not None:
+            index.append((ri, ce[0], ce[1]))
+    first = run_conc_cmds(ctx, tag, [(c, e) for _, c, e in index])
+    bad = []
+    for (ri, cmds, exp), b in zip(index, first):
+        if b is None:
+            continue
+        n = len(cmds)
+        variants = [set(range(1, n))] + [{k} for k in range(1, n)]
+        batches = [with_pool_runs(cmds, exp, v) for v in variants]
+        res = run_conc_cmds(ctx, tag + "-pool", batches)
+        if all(x is not None for x in res):
+            bad.append((ri, cmds[b[0]], exp[b[0]], b[1]))
+    return len(index), bad
 
 def keys_subset(impl, spec):
     """known finding C06-getkeys-reclaim-window: GetKeys may omit keys (never invent one)"""
